@@ -18,7 +18,9 @@ GEN_ROOT = COQ / "gen"
 # generated Coq files of THIS process (two checks running at the same time must not write the same files);
 # moved to coq/gen/<ID> when the check finishes, for inspection
 GEN = GEN_ROOT / f"run-{os.getpid()}"
-EVIDENCE = VERIF / "evidence"
+# development only (seed confirmation against a scratch worktree): evidence of such runs goes elsewhere
+EVIDENCE = Path(os.environ.get("VERIF_EVIDENCE_DIR", str(VERIF / "evidence")))
+EVIDENCE.mkdir(parents=True, exist_ok=True)
 REPLAYS = VERIF / "replays"
 PY = "/venv/bin/python"
 
@@ -115,8 +117,13 @@ def build_static(log=None) -> tuple[bool, str]:
         lock.close()
 
 
+# the time limits below only guard against hangs; on a loaded machine (checks running side by side) they are multiplied
+TMULT = float(os.environ.get("VERIF_TIMEOUT_MULT", "4"))
+
+
 def coqc(vfile: Path, timeout: int = 600, extra_q: list[tuple[Path, str]] = ()) -> tuple[int, str]:
     """Compile one generated .v file; returns (exit code, combined output)."""
+    timeout = int(timeout * TMULT)
     args = ["timeout", str(timeout), "coqc"] + coq_args() + ["-I", str(vfile.parent), "-Q", str(vfile.parent), ""]
     for d, name in extra_q:
         args += ["-Q", str(d), name]
@@ -431,7 +438,7 @@ def run_parsers(jobs: list[dict], chunk: int = 40, timeout: int = 600) -> list[d
     def one(part):
         try:
             p = subprocess.run([PY, str(VERIF / "harness" / "parser_runner.py")], input=json.dumps(part),
-                               capture_output=True, text=True, timeout=timeout, env=env)
+                               capture_output=True, text=True, timeout=timeout * TMULT, env=env)
             if p.returncode != 0:
                 return [{"runner_error": p.stderr[-500:]} for _ in part]
             return json.loads(p.stdout)
